@@ -52,6 +52,11 @@ func (t *Task) resolveMods(env *ExprEnv, con *FuncContract) (targets []modTarget
 				if item == "" || item == "nothing" {
 					continue
 				}
+				if item == "*" {
+					havoc = true
+					targets = append(targets, modTarget{array: "", isPrefix: true})
+					continue
+				}
 				targets = append(targets, t.resolveMod(env, item, c.Src)...)
 			}
 		}
@@ -97,6 +102,10 @@ func (t *Task) resolveMod(env *ExprEnv, item, src string) []modTarget {
 			case "held":
 				m := env.eval(e.Args[0])
 				return []modTarget{{array: "$held", ref: m.S}}
+			case "canceled":
+				m := env.eval(e.Args[0])
+				t.regArray("$g:canc", "(Array Int Bool)")
+				return []modTarget{{array: "$g:canc", ref: m.S}}
 			case "tokens":
 				m := env.eval(e.Args[0])
 				t.regArray("$tok", "(Array Int Int)")
@@ -161,10 +170,18 @@ func (t *Task) resolveMod(env *ExprEnv, item, src string) []modTarget {
 		f := structOf(T).Field(index[len(index)-1])
 		prefix, ref, _ := locOf(cur, T)
 		var out []modTarget
+		seen := map[string]bool{}
 		for _, lf := range t.leavesOf(f.Type()) {
 			name := prefix + "." + f.Name() + lf.path
 			t.regArray(name, "(Array Int "+sortOfKind(lf.kind)+")")
 			out = append(out, modTarget{array: name, ref: ref})
+			seen[name] = true
+		}
+		// ghost views of the same field (e.g. the boolean view of an atomic.Bool)
+		for name, srt := range t.arrSort {
+			if !seen[name] && strings.HasPrefix(name, prefix+"."+f.Name()+".") && strings.HasPrefix(srt, "(Array Int") {
+				out = append(out, modTarget{array: name, ref: ref})
+			}
 		}
 		return out
 	}
@@ -316,6 +333,23 @@ func (a *Activation) applyContract(con *FuncContract, fn *ssa.Function, args []V
 					cur := t.lookup(post, name)
 					inner := t.fresh(name+"@ci", strings.TrimSuffix(strings.TrimPrefix(t.sortOfArray(name), "(Array Int "), ")"))
 					t.set(post, name, sIte(sEq(m.callsOf, "0"), cur, sApp("store", cur, m.callsOf, inner)))
+				}
+			}
+		case m.isPrefix && m.array == "":
+			// modifies *: any call counter may move
+			for _, name := range []string{"$calls", "$otick"} {
+				if _, ok := t.arrSort[name]; ok {
+					oc := t.lookup(post, name)
+					nc := t.fresh(name+"@c", t.sortOfArray(name))
+					t.set(post, name, nc)
+					if name == "$calls" {
+						t.assume(st.pc, "(forall ((|r!m| Int)) (! (>= (select "+nc+" |r!m|) (select "+oc+" |r!m|)) :pattern ((select "+nc+" |r!m|))))")
+					}
+				}
+			}
+			for name := range t.arrSort {
+				if strings.HasPrefix(name, "$oarg") {
+					t.set(post, name, t.fresh(name+"@c", t.sortOfArray(name)))
 				}
 			}
 		case m.isPrefix:
@@ -556,7 +590,7 @@ func (t *Task) frameCheck(act *Activation, con *FuncContract, st0, out *State) {
 		if !strings.HasPrefix(srt, "(Array Int") {
 			continue
 		}
-		if strings.HasPrefix(name, "$") && name != "$held" && name != "$calls" && name != "$tok" && name != "$chanclosed" {
+		if strings.HasPrefix(name, "$") && name != "$held" && name != "$calls" && name != "$tok" && name != "$chanclosed" && name != "$g:canc" {
 			continue
 		}
 		if strings.HasPrefix(name, "box:") {
